@@ -45,8 +45,10 @@ CHECKS = {
         "bounded-exhaustive enumeration of ordered ACE pairs (deviation bound over 16 field "
         "positions, complete alphabets incl. groups with members and empty port sets) x 5 skip "
         "arguments, real shadow_of against an exact packet-set containment oracle",
-        "All ordered pairs within 2 (quick) / 3 (thorough) deviating field positions of two covering "
-        "base pairs, both platforms: library True must imply same action and exact containment "
+        "All ordered pairs within 2 deviating field positions (thorough: 3, the third over reduced "
+        "alphabets) of two covering base pairs, both platforms, plus an ACL-level unit (groups with "
+        "different members on both sides, through shading() directly / on a copy / after a platform "
+        "round trip / after a switch): library True must imply same action and exact containment "
         "(unions of cubes decided by exact cover, 65536-bit port masks, flag masks), and answers "
         "must be monotone in the skip set for every pair.",
         "Trusted: refsem containment (self-tested against brute force); DESIGN section 3 packet model.",
@@ -57,10 +59,12 @@ CHECKS = {
         "complete enumeration of ACL programs (ordered lists with repetition over a 16-item "
         "alphabet) x {flat, grouped} x {unnumbered, numbered} x skip; real delete_shadow on each, "
         "checked by exact cover witnesses and exact first-match equivalence",
-        "Every list of length <=3 (quick) / <=4 (thorough) over 16 items (nested permits, denies "
-        "between, log-only twins, keyword-less protocols, group covered member-wise / only by the "
-        "union, remarks, headings) and one element longer over the 10 items that can shadow each "
-        "other: report == shading() just before, second call empty and text-stable, result is a "
+        "Every list of length <=3 over 22 items (nested permits, denies between, log-only twins, "
+        "keyword-less protocols, groups covered member-wise / only by the union / on both sides, the "
+        "same group name with other members, multi-operand eq and neq, remarks, headings), length 4 "
+        "over the 12 core items (thorough), length 4/5 over the 9 items that can shadow each other, "
+        "and equal-text ACL twins with different group members evaluated in one process (an audited, "
+        "unmodified ACL is kept alive): report == shading() just before, second call empty and text-stable, result is a "
         "subsequence with only ACEs removed, each removed ACE exactly covered by an earlier same-"
         "action ACE of the original, first-match function identical on every cell of the atom "
         "product, block names/membership kept.",
